@@ -120,7 +120,8 @@ Inductive iframe :=
 | I_value             (* FutureBase.value                    futures.py 54-65      *)
 | I_raise_if_error    (* FutureBase.raise_if_error           futures.py 150-152    *)
 | I_reraise           (* qcore.errors.reraise                                      *)
-| I_call.             (* AsyncDecorator.__call__             decorators.py         *)
+| I_call              (* AsyncDecorator.__call__             decorators.py         *)
+| I_compute.          (* Future._compute                     futures.py 206-210    *)
 
 Inductive frame :=
 | FCaller                 (* the synchronous caller of the outermost task            *)
@@ -348,6 +349,48 @@ Definition observations_with (rep : bool) (ms : list (mode * how)) (b : bottom) 
   end.
 
 Definition observations := observations_with true.
+
+(** ** A failed future that is NOT a task, shared by several observers
+
+   The future every observer looks at holds an exception instance it was given; it glues nothing
+   itself.  What it remembers is decided in FutureBase.set_error (futures.py 103-114), which every
+   kind goes through: self._error_traceback = getattr(error, "_traceback", None).               *)
+Inductive fkind :=
+| KErrorFuture      (* ErrorFuture(e)                                  futures.py 234-246 *)
+| KItem             (* batch item, the batch's _flush does item.set_error(e)  batching.py   *)
+| KSetError         (* FutureBase(); set_error(e) from outside          futures.py 103-114 *)
+| KLazy.            (* Future(provider), the provider raises e at the first look  futures.py 199-210 *)
+
+(* where the instance comes from *)
+Inductive esrc :=
+| EOfTask (ms : list (mode * how)) (b : bottom). (* the error the failed task lvl_0 ended with (task.error()) *)
+(* Not modelled: an instance no task has prepared (never raised, or prepared by qcore outside any
+   task).  The first reader task that fails with it prepares it, set_error had nothing to save,
+   and AsyncTask._continue_on_generator throws it into the generator without its traceback
+   (work/s9-C18-finding.md). *)
+
+Definition PROVIDER : frame := FHelper (-2).
+
+Definition shared_exn (s : esrc) : option exn_st :=
+  match s with
+  | EOfTask ms b => task_result 0 ms b
+  end.
+
+(* the instance as it is when set_error receives it: Future._compute caught it coming out of the
+   provider; the other kinds are handed the object as it is *)
+Definition stored_by (fk : fkind) (e : exn_st) : exn_st :=
+  match fk with
+  | KLazy => pushes [PROVIDER; FInt I_compute] e
+  | _ => e
+  end.
+
+(* set_error saves what the instance carries at that moment *)
+Definition shared_observations (fk : fkind) (s : esrc) (drv : how) (os : list observer)
+  : list (option (list frame)) :=
+  match shared_exn s with
+  | None => map (fun _ => None) os
+  | Some e0 => let e := stored_by fk e0 in map Some (observe_seq true drv 0 os (saved_tb e) e)
+  end.
 
 (* ------------------------------------------------------------------------------------------ *)
 (** * Part C — creator chain (async_task.py 78, 309-344; debug.py 219-234)                     *)
@@ -748,6 +791,7 @@ Inductive case :=
 | CChain (ms : list (mode * how)) (b : bottom)
 | CStack (s0 : src) (cs : list (created * src))
 | CObserve (ms : list (mode * how)) (b : bottom) (drv : how) (os : list observer)
+| CShared (fk : fkind) (s : esrc) (drv : how) (os : list observer)
 | CRepr (o : obj).
 
 Inductive result :=
@@ -763,6 +807,7 @@ Definition run_case (c : case) : result :=
   | CChain ms b => RChain (option_map user_frames (caller_sees ms b))
   | CStack s0 cs => RStack (stack_in_deepest s0 cs)
   | CObserve ms b drv os => RObserve (map (option_map user_frames) (observations ms b drv os))
+  | CShared fk s drv os => RObserve (map (option_map user_frames) (shared_observations fk s drv os))
   | CRepr o => RRepr (of_option (str_obj o)) (of_option (repr_obj o))
                      (if has_dump (cls_of o) then Returned (dump_obj o 0) else NoMethod)
   end.
